@@ -671,11 +671,16 @@ class AsyncFIXConnection:
         if self._connection_state != ConnectionState.RESENDREQ_AWAITING:
             await self._state_set(ConnectionState.ACTIVE)
 
-    async def _process_seqreset(self, seqreset_msg: FIXMessage):
+    async def _process_seqreset(self, seqreset_msg: FIXMessage) -> bool | None:
         """Handles SequenceReset(35=4) message.
 
         Args:
             seqreset_msg: SequenceReset(35=4) FIXMessage
+
+        Returns:
+            True - reset was applied
+            False - malformed reset, must be ignored
+            None - GapFill which is out of sequence (regular MsgSeqNum rules apply)
         """
         assert seqreset_msg.msg_type == FMsg.SEQUENCERESET
 
@@ -684,6 +689,14 @@ class AsyncFIXConnection:
                 self.log.warning(
                     "Getting SEQUENCERESET(GapFillFlag=Y) while not filling gaps"
                 )
+            msg_seq_num = int(seqreset_msg[FTag.MsgSeqNum])
+            if msg_seq_num != self._session.next_num_in:
+                # GapFill is a regular sequenced message, it fills the gap only
+                #  from expected MsgSeqNum (too high -> resend request, low -> dup)
+                return None
+            if int(seqreset_msg[FTag.NewSeqNo]) <= msg_seq_num:
+                self.log.warning(f"SEQUENCERESET(GapFillFlag=Y) not forward {seqreset_msg}")
+                return False
         else:
             self.log.info(f"SequenceReset received from peer: {seqreset_msg}")
 
@@ -697,6 +710,7 @@ class AsyncFIXConnection:
         self._journaler.set_seq_num(
             self._session, next_num_in=int(seqreset_msg[FTag.NewSeqNo])
         )
+        return True
 
     async def _finalize_message(self, msg: FIXMessage, raw_msg: bytes):
         """Final message processing (MsgSeqNum checks / journaling).
@@ -785,6 +799,7 @@ class AsyncFIXConnection:
             )
             return
         is_valid_msg_num = False
+        seqreset_applied = None
         try:
             assert self._connection_state >= ConnectionState.NETWORK_CONN_ESTABLISHED
 
@@ -802,7 +817,7 @@ class AsyncFIXConnection:
             if msg.msg_type == FMsg.LOGON:
                 await self._process_logon(msg)
             elif msg.msg_type == FMsg.SEQUENCERESET:
-                await self._process_seqreset(msg)
+                seqreset_applied = await self._process_seqreset(msg)
             elif msg.msg_type == FMsg.LOGOUT:
                 await self._process_logout(msg)
 
@@ -811,11 +826,12 @@ class AsyncFIXConnection:
                 return
 
             msg_seq_num = int(msg[FTag.MsgSeqNum])
-            is_valid_msg_num = await self._check_seqnum_gaps(msg_seq_num)
-            if (
-                msg_seq_num < self._session.next_num_in
-                and msg.msg_type != FMsg.SEQUENCERESET
-            ):
+            if seqreset_applied is not None:
+                # SequenceReset was applied or ignored regardless of its MsgSeqNum
+                is_valid_msg_num = seqreset_applied
+            else:
+                is_valid_msg_num = await self._check_seqnum_gaps(msg_seq_num)
+            if msg_seq_num < self._session.next_num_in and seqreset_applied is None:
                 # Already processed message (tolerated only while awaiting a resend),
                 #   it must not be passed to the application or finalized again
                 is_valid_msg_num = False
